@@ -108,6 +108,7 @@ def prop_valid(name, value, how, validate=True):
 
 def run(ctx):
     import cssutils
+    import xml.dom as xml_dom
     from harness import impl
     rng = ctx.rng
     quick = ctx.tier == 'quick'
@@ -261,6 +262,44 @@ def run(ctx):
             if len({v for v in got.values() if v is not None}) > 1:
                 ctx.violation('verdict-depends-on-spelling-or-path', {'name': n_, 'value': v_, 'rule': ctxrule},
                               'verdicts by construction path: %r' % got, KNOWN_PRED)
+    # the verdict follows the ACTIVE profiles: defaultProfiles restricted to a subset
+    P = cssutils.profile
+    allp = list(P.profiles)
+    special = [('opacity', '0.5'), ('text-shadow', '1px 1px red'), ('overflow-x', 'hidden'), ('overflow', 'hidden scroll'), ('overflow', 'auto visible'),
+               ('box-sizing', 'border-box'), ('resize', 'both'), ('color', 'rgba(1,2,3,.5)'), ('color', 'red'), ('left', '1px'), ('border-color', 'red blue'),
+               ('font-family', 'x, y'), ('src', 'url(x.ttf)'), ('x-unknown', '1'), ('display', 'flex')]
+    subsets = [None, [allp[0]], allp[:2], [allp[-1]], [allp[0], allp[-1]]] + [rng.sample(allp, rng.randrange(1, len(allp))) for _ in range(2 if quick else 12)]
+    try:
+        for dp in subsets:
+            P.defaultProfiles = dp
+            active = dp or allp
+            for n_, v_ in special + [(rng.choice(names), rng.choice(pool)) for _ in range(25 if quick else 400)]:
+                ctx.case(('active', tuple(dp or ()), n_, v_))
+                try:
+                    per = {q_: P.validateWithProfile(n_, v_, profiles=[q_])[:2] == (True, True) for q_ in allp}
+                    ref_active = any(per[q_] for q_ in active)
+                    ref_any = any(per.values())
+                    got = {'validateWithProfile': P.validateWithProfile(n_, v_)[:2], 'validate': P.validate(n_, v_),
+                           'constructed': cssutils.css.Property(n_, v_).valid}
+                    sh = cssutils.parseString('a{%s:%s}' % (n_, v_))
+                    ps = sh.cssRules[0].style.getProperties(all=True) if sh.cssRules.length else []
+                    if ps:
+                        got['parsed'] = ps[0].valid
+                        got['rule'] = sh.cssRules[0].valid
+                        got['sheet'] = sh.valid
+                except xml_dom.DOMException:
+                    continue
+                except Exception as e:
+                    ctx.violation('raises', {'name': n_, 'value': v_, 'defaultProfiles': dp}, '%s: %s' % (type(e).__name__, e), KNOWN_PRED)
+                    continue
+                want = {'validateWithProfile': (ref_any, ref_active), 'validate': ref_any, 'constructed': ref_active,
+                        'parsed': ref_active, 'rule': ref_active, 'sheet': ref_active}
+                bad = {k_: (got[k_], want[k_]) for k_ in got if got[k_] != want[k_]}
+                if bad:
+                    ctx.violation('active-profiles', {'name': n_, 'value': v_, 'defaultProfiles': dp},
+                                  '(got, expected) by observation point: %r; profile by profile: %r' % (bad, per), KNOWN_PRED)
+    finally:
+        P.defaultProfiles = None
     for v, exp in (('url(x.ttf)', True), ('red', False)):
         s = cssutils.parseString('@font-face{src:%s} a{src:%s}' % (v, v))
         ctx.case(('fontface', v))
